@@ -96,7 +96,7 @@ func writeEvidence(path, id, tier string, seed int64, eng *Engine, hs []*ssa.Fun
 		"evaluations":                   total.Final + total.Feasibility,
 		"distinct_nontrivial":           total.Final,
 		"rule":                          "evaluations = SMT queries discharged (feasibility + final); distinct_nontrivial = final queries, i.e. distinct (path, assertion|panic-condition) pairs that were not constant-folded and were decided by the solver; states = complete symbolic paths; transitions = SSA instructions executed symbolically",
-		"exhaustive":                    len(inconclusive) == 0,
+		"exhaustive":                    len(inconclusive) == 0 && !total.SearchOnly,
 		"functions_encoded":             fns,
 		"repo_functions_encoded":        repoFns,
 		"harnesses":                     perHarness,
